@@ -123,10 +123,16 @@ let () =
   | m :: ops ->
     let md = mdef m in
     let processor = build cf md.md_parents false md.md_root in
+    let rec maxflag m = let Machine (sts, _, _, _, _) = m in
+      List.fold_left (fun acc st -> match st with State (_, sub, _, _, fl, _) ->
+        let a = List.fold_left (fun x f -> max x (int_of_nat f + 1)) acc fl in
+        (match sub with Some sm -> max a (maxflag sm) | None -> a)) 0 sts in
+    let nflags = maxflag md.md_root in
     let rn = ref (init_rnode md.md_root) in
     List.iter (fun o ->
         let (rn', tr) = run_op cf md.md_root processor default_fuel !rn (op o) in
         rn := rn';
         List.iter print_item tr;
         List.iter (fun (p, ids) -> Printf.printf "SNAP %s [%s]\n" (path p) (ints ids)) (snapshot md.md_root rn' []);
+        List.iteri (fun f (o, a) -> Printf.printf "FLAG %d or=%d and=%d\n" f (b2i o) (b2i a)) (flags_snapshot processor rn' (nat_of_int nflags));
         print_string "--\n") ops
